@@ -5,7 +5,7 @@ def run(facts, rep, tier):
     res = containers.ring_analyse(facts, rep)
     def add(rule, ok, inst, site, why='', key=None): res.setdefault(rule, []).append((bool(ok) if ok is not None else None, inst, site, why, key))
     n_it = containers.iterator_rules(containers.with_roles(facts, rep), add)
-    observer.emit(facts, rep, ['RB.1', 'RB.2', 'RB.3', 'RB.4', 'RB.5', 'RB.7'], {'RB.1': 40, 'RB.2': 70, 'RB.3': 28, 'RB.4': 28, 'RB.5': 20, 'RB.7': 40}, text=containers.RB_TEXT, res=res)
+    observer.emit(facts, rep, ['RB.1', 'RB.2', 'RB.3', 'RB.4', 'RB.5', 'RB.7', 'RB.9'], {'RB.1': 40, 'RB.2': 70, 'RB.3': 28, 'RB.4': 28, 'RB.5': 20, 'RB.7': 40, 'RB.9': 14}, text=containers.RB_TEXT, res=res)
     rep.count('ring_functions', res.get('_nfn', 0)); rep.count('iterator_functions', n_it)
     rep.floor('RingBuffer instantiations', res.get('_nclasses', 0), 6)
     rep.assume('element values / special members of T are trusted; asserts (-UNDEBUG) supply the documented preconditions (non-empty for pops, size < capacity unless overwriting); exception paths and capacity 0 are not modelled; '
